@@ -101,7 +101,7 @@ class C01(BattlePlan):
 
 
 
-BT = {2: 3, 3: None, 5: None, 6: None, 7: None, 8: None, 9: None, 10: None, 11: None, 99: None, 98: None}
+BT = {2: 3, 3: None, 5: None, 6: None, 7: None, 8: None, 9: None, 10: None, 11: None, 12: None, 99: None, 98: None}
 
 
 def battle_tags(ints):
@@ -143,7 +143,7 @@ class C02(BattlePlan):
 
     def gens(self, tier):
         n = {'quick': 2500, 'search': 3000}.get(tier, 60000)
-        return [('battle', n, [2 | 4 | 8, 4, 1, 200])]
+        return [('battle', n, [2 | 4 | 8 | 64, 4, 1, 200])]
 
     def nontrivial(self, ints, impl):
         b = VM.parse_battle(ints)
@@ -182,7 +182,7 @@ class C04(BattlePlan):
 
     def gens(self, tier):
         k = {'quick': 1, 'search': 1}.get(tier, 20)
-        return [('config', 1500 * k, []), ('battle', 1500 * k, [2 | 4 | 8 | 16, 4, 1, 60]), ('stepover', 1 if k == 1 else 6, [])]
+        return [('config', 1500 * k, []), ('battle', 1500 * k, [2 | 4 | 8 | 16, 4, 1, 60]), ('stepover', 1 if k == 1 else 6, []), ('step', 3 if k == 1 else 40, [])]
 
     def verdict_name(self, r):
         names = {10: 'panic-or-hang', 11: 'cycle-count-above-limit', 12: 'warrior-count', 13: 'living-count-differs-from-alive-flags',
